@@ -930,6 +930,27 @@ def syntax_variants(base: str, kind: str) -> list[tuple[str, str]]:
         ("non-ascii-digits", "٢٠١٨-01-01T00:00:00"),
         ("leap-second", "2016-12-31T23:59:60"),
         ("only-z", "ZZZ"),
+        # ISO week dates and non-ASCII octets (work package B2): the model answers all of them
+        ("week-w01", "2018-W01-1T00:00:00"),
+        ("week-basic", "2018W011T000000"),
+        ("week-no-day", "2018-W01"),
+        ("week-w52", "2018-W52-7T23:59:59+00:00"),
+        ("week-w53-long-year", "2020-W53-7T00:00:00Z"),
+        ("week-w53-short-year", "2018-W53-1"),
+        ("week-w00", "2018-W00-1"),
+        ("week-w54", "2018-W54-1"),
+        ("week-day-0", "2018-W01-0"),
+        ("week-day-8", "2018-W01-8"),
+        ("week-year-1", "0001-W01-1"),
+        ("week-year-0", "0000-W01-1"),
+        ("week-year-9999-last-day", "9999-W52-5"),
+        ("week-year-9999-beyond", "9999-W52-6"),
+        ("week-ambiguous-separator", "2018-W01-1000"),
+        ("week-non-ascii-separator", "2018-W01-1\u20ac00:00:00"),
+        ("non-ascii-separator", "2018-01-01\u00e900:00:00"),
+        ("non-ascii-tail", "2018-01-01T00:00:00\u00e9"),
+        ("non-ascii-4-octets", "2018-01-01T00:00\U0001d7ce0"),
+        ("non-ascii-after-nul", "2018-01-01T00:00:00.123456\x00\u00e9"),
     ]:
         a(("time-" + name, sub1(base, r"<Inception>[^<]*</Inception>", f"<Inception>{t}</Inception>")))
         if name in ("non-utc-plus", "garbage-time", "utc-z", "fraction"):
@@ -973,6 +994,9 @@ def syntax_variants(base: str, kind: str) -> list[tuple[str, str]]:
     for name, t in [
         ("empty", ""), ("p", "P"), ("no-p", "10D"), ("months", "P1M"), ("years", "P1Y"), ("weeks", "P2W"), ("tail-int", "P1D5"), ("negative-tail", "P0D-86400"),
         ("fraction", "PT1.5S"), ("lower", "p10d"), ("t-minutes", "PT5M"), ("double-t", "PTT5M"), ("huge", "P" + "9" * 30 + "D"), ("space", "P10D "), ("newline-tail", "P1D\n5"), ("garbage", "soon"),
+        # Unicode decimal digits / white space (work package B2): `\d` and int() accept them, so does the model
+        ("uni-digits", "P\u0663D"), ("uni-mixed", "P1\u0663DT\uff15M"), ("uni-tail", "P1D\u0663"), ("uni-space-tail", "P1D\u20035"), ("uni-superscript", "P\u00b2D"), ("uni-fullwidth", "PT\uff16\uff10S"),
+        ("uni-math-digits", "P\U0001d7d9\U0001d7d8D"), ("uni-nbsp", "P1D\u00a0"), ("uni-digit-after-designator", "P1\u0663"),
     ]:
         a(("duration-" + name, sub1(base, r"<PublishSafety>[^<]*<", f"<PublishSafety>{t}<")))
     # --- trailing garbage / structure
@@ -1818,6 +1842,10 @@ def run(tier: str, driver_ok: bool) -> Result:
         if lib.is_unsupported(mm):
             res.unsupported += 1
             res.bump("model:unsupported")
+            res.bump(f"model:unsupported:{c['stream']}:{c['kind']}")
+            if str(c.get("name", "")).split(":")[-1].startswith(("time-", "sigtime-", "duration-")):
+                # the timestamp / duration codecs answer every text since work package B2 (week dates, non-ASCII octets, Unicode digits)
+                res.disagreement(f"{c['kind']}: the model declines a timestamp/duration boundary document", key_case, _short(impl), mm)
             return
         mc = canon_outcome(mm)
         if not same_outcome(impl, mc):
